@@ -331,3 +331,23 @@ def small_programs():
           "x0 := RUN f WITH 3 END;\nx1 := RUN f WITH x0 END; x2 := x1\n")
     p3 = ("x0 := 3;\nl: x0 := x0 - 1;\nIF x0 = 0 THEN GOTO e;\nGOTO l;\ne: STOP\n")
     return [({'main.theo': p1}, 'main.theo'), ({'main.theo': p2}, 'main.theo'), ({'main.theo': p3}, 'main.theo')]
+
+
+def extra_programs():
+    """fixed programs for shapes the random generator produces rarely: many parameters, calls as arguments of calls,
+    STOP with pending calls, redefinition, an OUT parameter that is also an IN parameter, sugar on parameters"""
+    P = []
+    P.append("PROGRAM wide IN a, b, c, d, e, f, g, h, i OUT r DO\n  r := a;\n  r := r + 1;\n  LOOP i DO\n    r := r + 2\n  END;\n  i := h - 3\nEND\n"
+             "PROGRAM one IN q DO\n  x0 := q + 1\nEND\n"
+             "x := RUN wide WITH 1, 2, 3, 4, 5, 6, 7, 8, 2 END;\n"
+             "y := RUN wide WITH x, RUN one WITH x END, 3, RUN one WITH RUN one WITH 4 END END, 5, 6, 7, 8, 1 END;\nz := y - 1\n")
+    P.append("PROGRAM keep IN a, b OUT b DO\n  b := b + 1\nEND\nPROGRAM first IN a, b OUT a DO\n  a := a + b\nEND\n"
+             "u := 3;\nLOOP u DO\n  v := RUN keep WITH v, v END;\n  w := RUN first WITH w, v END\nEND\n")
+    P.append("PROGRAM inner IN a OUT r DO\n  r := a + 1;\n  STOP\nEND\nPROGRAM outer IN b OUT s DO\n  t := b + 2;\n  s := RUN inner WITH t END\nEND\n"
+             "x0 := 5;\nx1 := RUN outer WITH x0 END;\nx2 := 7\n")
+    P.append("PROGRAM f IN a DO\n  x0 := a + 1\nEND\nPROGRAM g IN a DO\n  x0 := RUN f WITH a END\nEND\nPROGRAM f IN a DO\n  b := a;\n  c := b;\n  x0 := c + 10\nEND\n"
+             "p := RUN g WITH 1 END;\nq := RUN f WITH 1 END\n")
+    P.append("PROGRAM cnt IN n OUT k DO\n  again: k := k + 1;\n  IF k = 5 THEN GOTO done;\n  GOTO again;\n  done: n := 0\nEND\n"
+             "a := RUN cnt WITH 9 END;\nIF a = 5 THEN GOTO ok;\nb := 1;\nok: c := a\n")
+    P.append("x := 2;\ny := 7;\nIF x = 5 THEN GOTO skip;\nz := 1;\nskip: w := 1;\nIF y = 7 THEN GOTO end;\nw := 2;\nend: v := w\n")
+    return [({'main.theo': t}, 'main.theo') for t in P]
